@@ -198,6 +198,15 @@ fn res_json(p: &Parsed, ids: &Ids) -> Value {
     }
 }
 
+/// A repository id that exists nowhere, derived from the seed (reproducible headers).
+fn rid_from(rng: &mut fastrand::Rng) -> RepoId {
+    let mut b = [0u8; 20];
+    for x in b.iter_mut() {
+        *x = rng.u8(..);
+    }
+    RepoId::from(git2::Oid::from_bytes(&b).unwrap())
+}
+
 fn hex(bytes: &[u8], max: usize) -> String {
     let mut s: String = bytes.iter().take(max).map(|b| format!("{b:02x}")).collect();
     if bytes.len() > max {
@@ -354,11 +363,8 @@ fn mode_hdr(args: &Args) {
         }
         (Ids(vec![("R1".into(), r1), ("R2".into(), r2)]), Some(storage), heads)
     } else {
-        let r1: RepoId = radicle::test::arbitrary::gen(1);
-        let mut r2: RepoId = radicle::test::arbitrary::gen(1);
-        while r2 == r1 {
-            r2 = radicle::test::arbitrary::gen(1);
-        }
+        let mut rng = fastrand::Rng::with_seed(0xc12);
+        let (r1, r2) = (rid_from(&mut rng), rid_from(&mut rng));
         (Ids(vec![("R1".into(), r1), ("R2".into(), r2)]), None, HashMap::new())
     };
     let nid = *signer.public_key();
@@ -526,11 +532,7 @@ fn mode_record_hdr(args: &Args) {
     let n = args.num("--n", 1000) as usize;
     let mut out = Out::create(Path::new(args.req("--out")));
     let mut rng = fastrand::Rng::with_seed(seed().wrapping_mul(0x9e37_79b9_7f4a_7c15) ^ 0xc12);
-    let r1: RepoId = radicle::test::arbitrary::gen(1);
-    let mut r2: RepoId = radicle::test::arbitrary::gen(1);
-    while r2 == r1 {
-        r2 = radicle::test::arbitrary::gen(1);
-    }
+    let (r1, r2) = (rid_from(&mut rng), rid_from(&mut rng));
     let ids = Ids(vec![("R1".into(), r1), ("R2".into(), r2)]);
     for _ in 0..n {
         let body = random_body(&mut rng);
@@ -565,7 +567,7 @@ fn mode_fuzz(args: &Args) {
     let n = args.num("--n", 10000) as usize;
     let mut out = Out::create(Path::new(args.req("--out")));
     let mut rng = fastrand::Rng::with_seed(seed().wrapping_mul(0x9e37_79b9_7f4a_7c15) ^ 0xc13);
-    let rid: RepoId = radicle::test::arbitrary::gen(1);
+    let rid = rid_from(&mut rng);
     let honest = {
         let b = format!("git-upload-pack /{}\0host=seed.example:8776\0\0version=2\0", rid.canonical());
         format!("{:04x}{b}", b.len() + 4).into_bytes()
@@ -762,7 +764,7 @@ fn do_fetch(resp: &NH, req: &mut NH, rid: RepoId, expect_served: bool) -> Obs {
         let mut transmitted = 0;
         let mut evidence: Option<String> = None;
         let mut subscriber_lost = false;
-        let deadline = Instant::now() + Duration::from_millis(if ok { 50 } else { 3000 });
+        let deadline = Instant::now() + Duration::from_millis(5000);
         let nid_s = req.id.to_string();
         let rid_s = rid.to_string();
         loop {
@@ -796,7 +798,10 @@ fn do_fetch(resp: &NH, req: &mut NH, rid: RepoId, expect_served: bool) -> Obs {
                     }
                 }
             }
-            if ok || evidence.is_some() || subscriber_lost || Instant::now() > deadline {
+            // A served request is over on the responder's side when `Wire::worker_result` has logged its
+            // result (after the upload-pack threads have ended): wait for that, so that no late event of
+            // this request can be attributed to the next one.
+            if evidence.is_some() || subscriber_lost || Instant::now() > deadline {
                 break;
             }
             std::thread::sleep(Duration::from_millis(20));
